@@ -1,7 +1,7 @@
 #!/venv/bin/python
 """Single entry point: vp_check.py <Cxx> [--tier quick|thorough] [--replay file]."""
 import os, sys
-sys.path.insert(0, "/repo/src")
+sys.path.insert(0, os.environ.get("VERIF_REPO_SRC", "/repo/src"))
 sys.path.insert(1, os.path.dirname(os.path.abspath(__file__)))
 if sys.getrecursionlimit() < 3000:
     sys.setrecursionlimit(3000)
